@@ -100,6 +100,8 @@ def _apply(obj, op):
 
 
 DEEP8Q = [(0, 1), (2, 3), (4, 5), (6, 7), (1, 3), (5, 7), (3, 7), (7, 3), (0, 6)]
+# the mirror image of DEEP8Q: the higher index is named first, so that parents get the larger index
+DEEP8R = [(1, 0), (3, 2), (5, 4), (7, 6), (3, 1), (7, 5), (7, 3), (3, 7), (6, 0)]
 DEEP8 = [(0, 1), (1, 0), (2, 3), (4, 5), (6, 7), (1, 3), (3, 1), (5, 7), (7, 5), (3, 7), (7, 3), (0, 7), (7, 0), (2, 6)]
 
 
@@ -343,9 +345,9 @@ def ft_search(n, init, depth):
 def _uf_chunk(params, lo, hi):
     out = new_result()
     for k in range(lo, hi):
-        if params[k] in ("deep8", "deep8q"):
-            r = uf_search(8, unions=DEEP8 if params[k] == "deep8" else DEEP8Q)
-            r["counters"]["uf_states_deep8"] = r["counters"].pop("uf_states_n8", 0)
+        if params[k] in ("deep8", "deep8q", "deep8r"):
+            r = uf_search(8, unions={"deep8": DEEP8, "deep8q": DEEP8Q, "deep8r": DEEP8R}[params[k]])
+            r["counters"]["uf_states_" + params[k]] = r["counters"].pop("uf_states_n8", 0)
             _merge(out, r)
         else:
             _merge(out, uf_search(params[k]))
@@ -390,7 +392,7 @@ def _merge(out, r):
 
 def jobs(tier, seed):
     uf_ns = [7, 6, 5, 4, 3, 2, 1] if tier == "thorough" else [6, 5, 4, 3, 2, 1]
-    uf_ns = ["deep8" if tier == "thorough" else "deep8q"] + uf_ns  # n = 8 with 14 declared union pairs: trees of depth 3 (rank 3), every query in every state
+    uf_ns = (["deep8", "deep8r"] if tier == "thorough" else ["deep8q", "deep8r"]) + uf_ns  # n = 8 with 14 declared union pairs: trees of depth 3 (rank 3), every query in every state
     depth = 5 if tier == "thorough" else 4
     ft = _ft_cases(5, depth)
     if tier == "quick":
@@ -399,7 +401,7 @@ def jobs(tier, seed):
         ft = [c for c in ft if c[0] != 5 or c[1] is None or (sum(1 for v in c[1] if v) % 3 == seed % 3)]
     ft.sort(key=lambda c: -c[0])
     return [
-        Job("unionfind_closure", len(uf_ns), _uf_chunk, uf_ns, chunk=1, describe=f"BFS to closure for n in {uf_ns[1:]}; plus n=8 to closure over the declared union alphabet {DEEP8 if tier == 'thorough' else DEEP8Q}"),
+        Job("unionfind_closure", len(uf_ns), _uf_chunk, uf_ns, chunk=1, describe=f"BFS to closure for n in {uf_ns[2:]}; plus n=8 to closure over the declared union alphabets {DEEP8 if tier == 'thorough' else DEEP8Q} and {DEEP8R}"),
         Job("fenwick_depth%d" % depth, len(ft), _ft_chunk, ft, chunk=max(1, len(ft) // 128), describe="(n, initial vector) x all histories to the depth bound"),
     ]
 
